@@ -229,6 +229,10 @@ def check(col, prog, tier, profile, fixture=None):
             fc = [e for e in util.events_of(st, "call") if (e.fn.get("resolved") or e.fn).get("def") == find.key]
             ret = util.ret_term(st)
             ok = len(fc) == 2 and ret == ("bin", "Eq", fc[0].res, fc[1].res) and {fc[0].args[1][1], fc[1].args[1][1]} == {2, 3}
+            if not ok and len(fc) == 1 and ret == mk_int(1) and fc[0].args[1][0] == "param" and fc[0].args[1][1] in (2, 3):
+                # fast path: find(u) == v settles it — a find result is a root, so v is its own root and find(v) == v
+                other = ("param", 5 - fc[0].args[1][1], Ic.names.get(5 - fc[0].args[1][1]))
+                ok = util.entails(Ic, st.facts, "Eq", fc[0].res, other)
             if ok:
                 col.ok("D6" + sfx, chk_b.loc(), "%s|compares-two-finds" % fk(chk_b), "check == (find(u) == find(v))")
             else:
